@@ -188,6 +188,8 @@ def run(chk):
     deadsetting.run(chk)
     from lib import stackslot
     stackslot.run(chk)
+    from lib import cvtdir
+    cvtdir.run(chk)
     fns_o = []
     for unit_, pat_ in (("asmjit/x86/x86func.cpp", r"asmjit::x86::FuncInternal::[a-z_0-9]+$"), ("asmjit/arm/a64func.cpp", r"asmjit::a64::FuncInternal::[a-z_0-9]+$")):
         fns_o += [g for g in _cfg.load_functions(chk.facts(unit_, funcs=pat_)) if g.file.endswith(unit_.split("/")[-1])]
